@@ -229,6 +229,26 @@ def run_cfg(chk, facts, cfg):
                 # by-value receivers operate on a state that was moved or copied into the call: the caller's own state
                 # (if it still has one) cannot be modified through them
                 chk.ob('%s:%s:%s:receiver%s' % (PID, name, f['name'], sfx), 'E0-types', 'a by-value method works on a moved / copied state and cannot modify the caller\'s', True, '', facts.loc(f['id']))
+    # "incremental / chunked = batch": every feeder (append, extend, from_iter, the paired / unpaired feeders, the
+    # counting folds) adds each observation exactly once to the state it *finds* - the fold / routing obligations of
+    # C01, C04 and C02, re-established here on the same facts and reported under this property
+    n_fold = 0
+    try:
+        from .. import core as core_
+        from . import C01 as R1, C04 as R4
+        for R, sub_pid in ((R1, 'C01'), (R4, 'C04')):
+            sub = core_.Check(sub_pid, chk.tier)
+            R.run_cfg(sub, facts, cfg)
+            for o in sub.obligations:
+                if o['rule'] in ('T1-fold', 'T-fold', 'T2-lockstep') or (o['rule'] == 'E3+E4' and 'append' in o['key']):
+                    n_fold += 1
+                    chk.ob('%s:feeder:%s' % (PID, o['key'].split(':', 1)[1]), 'composition ' + o['rule'],
+                           'incremental = batch: ' + (o.get('desc') or o['key']) + ' (each observation added once to the state found)',
+                           None if o['status'] == 'undecided' else o['status'] == 'ok', o.get('detail') or '', o.get('where') or 'feeders')
+    except Exception as e:
+        chk.ob('%s:feeder%s' % (PID, sfx), 'composition', 'fold obligations of the feeders', None, 'undecided: %r' % (e,), 'feeders')
+    if cfg == 'default':
+        chk.floor('feeder-folds', n_fold, 20)
     from ..effects import obligation as no_hidden_state
     no_hidden_state(chk, PID, facts, sfx, 'no function of the crate reaches thread-local / cell / lock / atomic state (queries cannot depend on earlier queries)')
     # the one lazy static is initialised from constants
